@@ -200,6 +200,56 @@ pub fn run(r: &mut Rec) {
             one_case(r, &format!("small {}x{} {:?} {:?}", la, lb, pa, pb), &a, &b, 7);
         }
     }
+    // Toom-3 operands assembled from thirds (all ones / zeros / B^k + 1 / ones with a few zero digits): the evaluation and
+    // interpolation steps then add and subtract intermediate values of very different lengths, with all-ones runs and zero
+    // digits exactly where a carry or a borrow has to travel
+    {
+        let third = |kind: u64, n: usize| -> Vec<u64> {
+            match kind {
+                0 => vec![u64::MAX; n],
+                1 => vec![0u64; n],
+                2 => {
+                    let mut v = vec![0u64; n];
+                    v[0] = 1;
+                    v[(n * 3) / 5] = 1;
+                    v
+                }
+                3 => {
+                    let mut v = vec![u64::MAX; n];
+                    for d in v.iter_mut().skip(n - 3) {
+                        *d = 0;
+                    }
+                    v
+                }
+                _ => {
+                    let mut v = vec![0u64; n];
+                    for d in v.iter_mut().take(n / 2) {
+                        *d = u64::MAX;
+                    }
+                    v
+                }
+            }
+        };
+        let dense = digits(&mut rng, 302, Pat::Random);
+        for c in 0..125u64 {
+            let with_dense = r.thorough || (c * 7 + r.seed) % 9 == 0;
+            let (k0, k1, k2) = (c % 5, (c / 5) % 5, c / 25);
+            if k2 == 1 {
+                continue; // top third zero: a shorter operand, covered elsewhere
+            }
+            let mut x = third(k0, 101);
+            x.extend(third(k1, 101));
+            x.extend(third(k2, 98));
+            if *x.last().unwrap() == 0 {
+                let l = x.len();
+                x[l - 1] = 1;
+            }
+            square_case(r, &format!("toom thirds {}{}{} squared", k0, k1, k2), &x);
+            if with_dense {
+                one_case(r, &format!("toom thirds {}{}{} x dense", k0, k1, k2), &x, &dense, 1);
+            }
+        }
+    }
     // regime boundaries
     let shorter: Vec<usize> = if r.thorough {
         vec![16, 31, 32, 33, 34, 48, 63, 64, 65, 66, 96, 127, 128, 129, 192, 255, 256, 257, 258, 300, 384, 511, 512, 513]
